@@ -18,6 +18,7 @@ def trackedBit : Slot → Nat
   | .minutes => F.minutes
   | .seconds => F.seconds
   | .fraction => F.fraction
+  | .calendar => F.calendar
   | _ => 0
 
 /-- a step that assigns one of the tracked slots has that slot's field bit among `bits` -/
@@ -452,6 +453,8 @@ def isDateLike : PType → Bool
   | .date => true
   | .datetime _ => true
   | .annual _ _ => true
+  | .dateC _ => true
+  | .datetimeC _ => true
   | _ => false
 
 theorem compileLoop_inv (ty : PType) (hty : isDateLike ty = true) (cu : Culture) : ∀ (fuel : Nat) (text : Text) (st st' : CSt),
@@ -483,6 +486,8 @@ theorem compileLoop_inv (ty : PType) (hty : isDateLike ty = true) (cu : Culture)
           | datetime tm => exact handleDateTime_ext cu c rest st st1 k hh
           | annual tm td => exact handleAnnual_ext cu c rest st st1 k hh
           | duration => cases hty
+          | dateC tc => exact handleDate_ext cu c rest st st1 k hh
+          | datetimeC tc => exact handleDateTime_ext cu c rest st st1 k hh
         exact ih _ st1 st' h (inv_ext st st1 hs g)
 
 theorem compileCustom_wf (ty : PType) (hty : isDateLike ty = true) (cu : Culture) (text : Text) (c : Compiled)
@@ -568,14 +573,16 @@ theorem compileDateTime_wf (tm : Tmpl) (cu : Culture) (hcu : cu.monthHeadsEmpty 
       | split at h)
   · exact compileDTText_wf tm cu hcu _ p h
 
-/-- **success_value_valid** for LocalDate: whatever pattern text was accepted (default template, ISO calendar), in
-    whatever culture record whose month tables start with the empty entry, a successful parse of any text carries
-    a valid date -/
+/-- **success_value_valid** for LocalDate: whatever pattern text WITHOUT the calendar field was accepted (default
+    template, ISO calendar), in whatever culture record whose month tables start with the empty entry, a successful parse
+    of any text carries a valid date (patterns with the calendar field and templates of other calendars:
+    `C08Calendar.lean`, `date_success_valid_all`) -/
 theorem date_success_valid (cu : Culture) (hcu : cu.monthHeadsEmpty = true) (ptext : Text) (p : Pat)
-    (hp : compileDate cu ptext = .ok p) (l : Text) (v : List Int) (h : parsePat .date l p = .ok (some v)) :
+    (hp : compileDate cu ptext = .ok p) (hnc : patNoCal p = true) (l : Text) (v : List Int) (h : parsePat .date l p = .ok (some v)) :
     ∃ y m d, v = [y, m, d] ∧ validDate y m d := by
   obtain ⟨c, rfl, h1, h2, h3⟩ := compileDate_wf cu hcu ptext p hp
-  simp only [parsePat] at h
+  simp only [patNoCal, Bool.not_eq_true'] at hnc
+  simp only [parsePat, evalType, hnc, Bool.false_eq_true, if_false] at h
   exact parseCompiled_date_valid c h1 h2 h3 l v h
 
 /-- **success_value_valid** for LocalDateTime: whatever pattern text was accepted, whatever valid ISO template
@@ -583,14 +590,16 @@ theorem date_success_valid (cu : Culture) (hcu : cu.monthHeadsEmpty = true) (pte
     parses with `effTmpl tm ptext`: the built-in patterns behind `o O r R s S` keep the default template.)
     Patterns with embedded `ld<…>` / `lt<…>` parts (`Pat.segmented`) are not covered by this theorem. -/
 theorem datetime_success_valid (tm : Tmpl) (htm : TmplOK tm) (cu : Culture) (hcu : cu.monthHeadsEmpty = true) (ptext : Text)
-    (p : Pat) (hp : compileDateTime tm cu ptext = .ok p) (hns : ∀ cu' u s, p ≠ .segmented cu' u s) (l : Text) (v : List Int)
+    (p : Pat) (hp : compileDateTime tm cu ptext = .ok p) (hns : ∀ cu' u s, p ≠ .segmented cu' u s) (hnc : patNoCal p = true)
+    (l : Text) (v : List Int)
     (h : parsePat (.datetime (effTmpl tm ptext)) l p = .ok (some v)) :
     ∃ y m d nod, v = [y, m, d, nod] ∧ validDate y m d ∧ 0 ≤ nod ∧ nod < 86400000000000 := by
   obtain ⟨c, rfl, h1, h2, h3⟩ : DtWF p := by
     rcases compileDateTime_wf tm cu hcu ptext p hp with h | ⟨cu', u, s, e⟩
     · exact h
     · exact absurd e (hns cu' u s)
-  simp only [parsePat] at h
+  simp only [patNoCal, Bool.not_eq_true'] at hnc
+  simp only [parsePat, evalType, hnc, Bool.false_eq_true, if_false] at h
   have htm' : TmplOK (effTmpl tm ptext) := by
     unfold effTmpl
     split
@@ -680,7 +689,7 @@ theorem annual_success_valid (tm td : Int) (ht : 1 ≤ tm ∧ 1 ≤ td) (cu : Cu
     (h : parsePat (.annual tm td) l p = .ok (some v)) :
     ∃ m d, v = [m, d] ∧ 1 ≤ m ∧ m ≤ 12 ∧ 1 ≤ d ∧ d ≤ daysInMonth 2000 m := by
   obtain ⟨c, rfl, hc, hw, hs⟩ := compileAnnual_wf tm td cu hcu ptext p hp
-  simp only [parsePat] at h
+  simp only [parsePat, evalType] at h
   unfold parseCompiled at h
   split at h
   · cases h
@@ -745,11 +754,11 @@ theorem compileAnnual_patOK (tm td : Int) (cu : Culture) (ptext : Text) (p : Pat
     record, parsing any text returns a result value (a success or a failure), never an exception -/
 theorem annual_parse_total (tm td : Int) (cu : Culture) (ptext : Text) (p : Pat) (h : compileAnnual tm td cu ptext = .ok p)
     (l : Text) : ∃ r, parsePat (.annual tm td) l p = .ok r :=
-  parsePat_total _ l p (compileAnnual_patOK tm td cu ptext p h)
+  parsePat_total _ rfl l p (compileAnnual_patOK tm td cu ptext p h)
 
 theorem duration_parse_total (cu : Culture) (ptext : Text) (p : Pat) (h : compileDuration cu ptext = .ok p) (l : Text) :
     ∃ r, parsePat .duration l p = .ok r :=
-  parsePat_total _ l p (compileDuration_patOK cu ptext p h)
+  parsePat_total _ rfl l p (compileDuration_patOK cu ptext p h)
 
 /-- **success_value_valid** for Duration: every pattern object, whatever its steps: a success is a Duration between
     `Duration.min_value` and `Duration.max_value` with a nanosecond of day inside the day -/
@@ -800,7 +809,7 @@ theorem duration_success_valid (cu : Culture) (ptext : Text) (p : Pat) (hp : com
     · repeat' (first | exact key _ _ hp | cases hp | split at hp)
     · exact key _ _ hp
   obtain ⟨c, rfl⟩ := this
-  simp only [parsePat] at h
+  simp only [parsePat, evalType] at h
   exact parseCompiled_duration_valid c l v h
 
 /-- **parse_total** for LocalDate and LocalDateTime pattern objects without a calendar field (`patOK`): for every
@@ -809,8 +818,9 @@ theorem datetime_parse_total (tm : Tmpl) (p : Pat)
     (hp : patOK p = true ∨ ∃ cu used segs, p = .segmented cu used segs ∧ segs.all segOK = true) (l : Text) :
     ∃ r, parsePat (.datetime tm) l p = .ok r := by
   rcases hp with hp | ⟨cu, used, segs, rfl, hs⟩
-  · exact parsePat_total (.datetime tm) l p hp
+  · exact parsePat_total (.datetime tm) rfl l p hp
   · simp only [parsePat]
+    rw [segsUseCalendar_of_segOK segs hs]
     exact parseSegmented_total tm cu used segs l hs
 
 /-- Instant patterns are LocalDateTime patterns behind an adapter: creation is total, and the LocalDateTime theorems
@@ -828,14 +838,16 @@ theorem compileInstant_wf (tm : Tmpl) (cu : Culture) (hcu : cu.monthHeadsEmpty =
 /-- **success_value_valid** for Instant patterns without embedded parts: the parsed UTC date-time is a valid date and
     a time inside the day (its conversion to an Instant, `Instant._ctor(days, nano_of_day)`, is outside this model) -/
 theorem instant_success_valid (tm : Tmpl) (htm : TmplOK tm) (cu : Culture) (hcu : cu.monthHeadsEmpty = true) (ptext : Text)
-    (p : Pat) (hp : compileInstant tm cu ptext = .ok p) (hns : ∀ cu' u s, p ≠ .segmented cu' u s) (l : Text) (v : List Int)
+    (p : Pat) (hp : compileInstant tm cu ptext = .ok p) (hns : ∀ cu' u s, p ≠ .segmented cu' u s) (hnc : patNoCal p = true)
+    (l : Text) (v : List Int)
     (h : parsePat (.datetime tm) l p = .ok (some v)) :
     ∃ y m d nod, v = [y, m, d, nod] ∧ validDate y m d ∧ 0 ≤ nod ∧ nod < 86400000000000 := by
   obtain ⟨c, rfl, h1, h2, h3⟩ : DtWF p := by
     rcases compileInstant_wf tm cu hcu ptext p hp with h | ⟨cu', u, s, e⟩
     · exact h
     · exact absurd e (hns cu' u s)
-  simp only [parsePat] at h
+  simp only [patNoCal, Bool.not_eq_true'] at hnc
+  simp only [parsePat, evalType, hnc, Bool.false_eq_true, if_false] at h
   exact parseCompiled_datetime_valid _ htm c h1 h2 h3 l v h
 
 end Pyoda.C08
